@@ -710,9 +710,13 @@ def load(case):
     if case.get("file"):
         L.tmp = tempfile.mkdtemp(prefix="verif-obj-")
         L.file = os.path.join(L.tmp, "model.txt")
-        with open(L.file, "wb") as f:
-            f.write(raw.encode("utf-8"))
-        L.model = L.mm.model_from_file(L.file)
+        try:
+            with open(L.file, "wb") as f:
+                f.write(raw.encode("utf-8"))
+            L.model = L.mm.model_from_file(L.file)
+        except BaseException:
+            cleanup(L)
+            raise
     else:
         L.model = L.mm.model_from_str(raw)
     return L
